@@ -3,6 +3,7 @@ package c18
 import (
 	"bufio"
 	"bytes"
+	"encoding/binary"
 	"crypto/x509"
 	"encoding/hex"
 	"encoding/json"
@@ -11,8 +12,11 @@ import (
 	"os/exec"
 	"path/filepath"
 	"regexp"
+	"runtime"
+	"sort"
 	"strings"
 	"sync"
+	"sync/atomic"
 	"syscall"
 	"testing"
 	"time"
@@ -49,12 +53,15 @@ type runT struct {
 	// key, ftp/smtp/ldap key and certificate, agent key) are in the store's value log - a
 	// kill aimed at an on-disk state instead of an instant.
 	KillRec int `json:"kill_rec,omitempty"`
+	// KillSibling: the starting process is SIGKILLed the moment a new file other than
+	// "token" appears in the data directory (a writer's temporary file).
+	KillSibling bool `json:"kill_sibling,omitempty"`
 	// DelayMs is filled in when a case is recorded (the delay that was actually used) and
 	// honoured on replay.
 	DelayMs float64 `json:"delay_ms,omitempty"`
 }
 
-func (r runT) killed() bool { return r.Kill >= 0 || r.KillRec > 0 }
+func (r runT) killed() bool { return r.Kill >= 0 || r.KillRec > 0 || r.KillSibling }
 
 func (r runT) set() string {
 	var s []string
@@ -101,8 +108,21 @@ type histCase struct {
 	Token     string `json:"token"`
 	// DirExists: the data directory exists (empty) before the first run; forced when a token
 	// file is placed.
-	DirExists bool   `json:"dir_exists"`
-	Runs      []runT `json:"runs"`
+	DirExists bool `json:"dir_exists"`
+	// Siblings: files planted next to the token file before the first run - what a writer
+	// that goes through a temporary file leaves when it is killed before the rename.
+	Siblings []sibT `json:"siblings,omitempty"`
+	// Snapshot: complete content of the data directory (relative path -> hex) as a killed
+	// start left it; restored before the first run. Recorded by the state-aimed kill
+	// enumerators so that a replay does not depend on hitting the instant again.
+	Snapshot map[string]string `json:"snapshot,omitempty"`
+	Origin   string            `json:"origin,omitempty"`
+	Runs     []runT            `json:"runs"`
+}
+
+type sibT struct {
+	Name    string `json:"name"`
+	Content string `json:"content"`
 }
 
 const killSteps = 40
@@ -113,7 +133,7 @@ const maxReports = 2
 var tokenRe = regexp.MustCompile(`^[0-9a-v]{20}$`)
 
 func (c histCase) crashState() bool {
-	return c.TokenFile == "content" && len(c.Token) < 20
+	return (c.TokenFile == "content" && len(c.Token) < 20) || len(c.Siblings) > 0 || c.Snapshot != nil
 }
 
 func (c histCase) tokenLabel() string {
@@ -161,7 +181,9 @@ type childResult struct {
 	KilledAt   time.Duration
 	Exit       string
 	Fatal      string
-	Output     string // tail of stdout+stderr
+	NewRecords []string // identity records that reached the store during this run (after a kill)
+	Siblings   []string // files other than token / badger.db seen appearing in the data directory
+	Output     string   // tail of stdout+stderr
 	HarnessErr string // could not exec etc.
 }
 
@@ -242,14 +264,163 @@ func diskLabel(dataDir string) string {
 		if recs[s+".pemkey"] && !recs[s+".pemcert"] {
 			return "key-without-certificate"
 		}
+		if !recs[s+".pemkey"] && recs[s+".pemcert"] {
+			return "certificate-without-key"
+		}
 	}
 	return fmt.Sprintf("records=%d", len(recs))
 }
 
-// runChild starts one sensor process on dataDir. kill >= 0: SIGKILL after that delay;
-// killRec > 0: SIGKILL as soon as that many identity records are on disk; otherwise wait
-// for the process to finish.
-func runChild(dataDir string, r runT, kill time.Duration, killRec int) childResult {
+// killPlan says how a run ends.
+type killPlan struct {
+	delay   time.Duration // >= 0: SIGKILL after this delay
+	rec     int           // > 0: SIGKILL when this many new identity records are in the store
+	sibling bool          // SIGKILL when a new file other than token appears in the data directory
+	watch   bool          // only record such files
+}
+
+var noKill = killPlan{delay: -1}
+
+func names(m map[string]bool) []string {
+	var out []string
+	for k := range m {
+		out = append(out, k)
+	}
+	sort.Strings(out)
+	return out
+}
+
+// watchRecords freezes the child (SIGSTOP) whenever the store's value log changed, looks
+// at the records on disk while it is frozen and either kills it (target reached) or lets it
+// continue. Every identity record is one write to the value log, so the child is looked at
+// after each single store write.
+func watchRecords(dataDir string, target int, before map[string]bool, pid int, stop chan struct{}, kill func()) {
+	runtime.LockOSThread()
+	defer runtime.UnlockOSThread()
+	vlog := filepath.Join(dataDir, "badger.db", "000000.vlog")
+	last := int64(-1)
+	if fi, err := os.Stat(vlog); err == nil {
+		last = fi.Size()
+	}
+	var st syscall.Stat_t
+	for i := 0; ; i++ {
+		if i&63 == 0 {
+			select {
+			case <-stop:
+				return
+			default:
+			}
+		}
+		size := int64(-1)
+		if syscall.Stat(vlog, &st) == nil {
+			size = st.Size
+		}
+		if size == last {
+			continue
+		}
+		last = size
+		if size <= 0 {
+			continue
+		}
+		syscall.Kill(pid, syscall.SIGSTOP)
+		time.Sleep(150 * time.Microsecond) // every thread has to take the stop
+		n := 0
+		for k := range diskRecords(dataDir) {
+			if !before[k] {
+				n++
+			}
+		}
+		if n >= target {
+			kill()
+			return
+		}
+		if syscall.Stat(vlog, &st) == nil {
+			last = st.Size
+		}
+		syscall.Kill(pid, syscall.SIGCONT)
+	}
+}
+
+// watchSiblings reports (and optionally kills on) files appearing in the data directory
+// other than the token file and the store. inotify when available, else a tight readdir loop.
+func watchSiblings(dataDir string, stop chan struct{}, seen func(string), kill func()) (ready chan struct{}) {
+	ready = make(chan struct{})
+	go func() {
+		runtime.LockOSThread()
+		defer runtime.UnlockOSThread()
+		interesting := func(n string) bool { return n != "" && n != "token" && n != "badger.db" }
+		fd, err := syscall.InotifyInit1(syscall.IN_NONBLOCK | syscall.IN_CLOEXEC)
+		if err == nil {
+			defer syscall.Close(fd)
+			_, err = syscall.InotifyAddWatch(fd, dataDir, syscall.IN_CREATE|syscall.IN_MOVED_TO)
+		}
+		if err == nil {
+			close(ready)
+			buf := make([]byte, 16384)
+			for i := 0; ; i++ {
+				if i&63 == 0 {
+					select {
+					case <-stop:
+						return
+					default:
+					}
+				}
+				n, rerr := syscall.Read(fd, buf)
+				if rerr != nil || n <= 0 {
+					continue
+				}
+				for off := 0; off+16 <= n; {
+					mask := binary.LittleEndian.Uint32(buf[off+4:])
+					l := int(binary.LittleEndian.Uint32(buf[off+12:]))
+					name := strings.TrimRight(string(buf[off+16:off+16+l]), "\x00")
+					off += 16 + l
+					if mask&syscall.IN_CREATE != 0 && interesting(name) {
+						if kill != nil {
+							kill()
+						}
+						seen(name)
+					}
+				}
+			}
+		}
+		// fallback: poll the directory
+		known := map[string]bool{}
+		if es, err := os.ReadDir(dataDir); err == nil {
+			for _, e := range es {
+				known[e.Name()] = true
+			}
+		}
+		close(ready)
+		for i := 0; ; i++ {
+			if i&15 == 0 {
+				select {
+				case <-stop:
+					return
+				default:
+				}
+			}
+			es, err := os.ReadDir(dataDir)
+			if err != nil {
+				continue
+			}
+			for _, e := range es {
+				if !known[e.Name()] {
+					known[e.Name()] = true
+					if interesting(e.Name()) {
+						if kill != nil {
+							kill()
+						}
+						seen(e.Name())
+					}
+				}
+			}
+		}
+	}()
+	return ready
+}
+
+// runChild starts one sensor process on dataDir and ends it as the plan says.
+func runChild(dataDir string, r runT, plan killPlan) childResult {
 	var res childResult
 	spec := Spec{DataDir: dataDir, SSH: r.SSH, FTP: r.FTP, SMTP: r.SMTP, LDAP: r.LDAP, Agent: r.Agent}
 	sj, _ := json.Marshal(spec)
@@ -273,41 +444,53 @@ func runChild(dataDir string, r runT, kill time.Duration, killRec int) childResu
 	cmd.Stderr = out
 	cmd.ExtraFiles = []*os.File{pw}
 	cmd.Dir = filepath.Dir(dataDir)
-	t0 := time.Now()
-	if err := cmd.Start(); err != nil {
-		pw.Close()
-		res.HarnessErr = "exec: " + err.Error()
-		return res
-	}
-	pw.Close()
+	before := diskRecords(dataDir)
 	var mu sync.Mutex
-	var killTimer *time.Timer
+	stopWatch := make(chan struct{})
+	var t0 time.Time
+	var pidA atomic.Int64
 	doKill := func() {
+		syscall.Kill(int(pidA.Load()), syscall.SIGKILL)
 		mu.Lock()
 		res.Killed = true
 		res.KilledAt = time.Since(t0)
 		mu.Unlock()
-		cmd.Process.Signal(syscall.SIGKILL)
 	}
-	stopWatch := make(chan struct{})
-	if killRec > 0 {
-		base := len(diskRecords(dataDir))
-		go func() {
-			for {
-				select {
-				case <-stopWatch:
-					return
-				default:
-				}
-				if len(diskRecords(dataDir))-base >= killRec {
+	if plan.sibling || plan.watch {
+		if err := os.MkdirAll(dataDir, 0755); err != nil {
+			pw.Close()
+			res.HarnessErr = err.Error()
+			return res
+		}
+		var k func()
+		if plan.sibling {
+			k = func() {
+				if pidA.Load() != 0 {
 					doKill()
-					return
 				}
-				time.Sleep(150 * time.Microsecond)
 			}
-		}()
-	} else if kill >= 0 {
-		killTimer = time.AfterFunc(kill, doKill)
+		}
+		<-watchSiblings(dataDir, stopWatch, func(n string) {
+			mu.Lock()
+			res.Siblings = append(res.Siblings, n)
+			mu.Unlock()
+		}, k)
+	}
+	t0 = time.Now()
+	if err := cmd.Start(); err != nil {
+		pw.Close()
+		close(stopWatch)
+		res.HarnessErr = "exec: " + err.Error()
+		return res
+	}
+	pid := cmd.Process.Pid
+	pidA.Store(int64(pid))
+	pw.Close()
+	var killTimer *time.Timer
+	if plan.rec > 0 {
+		go watchRecords(dataDir, plan.rec, before, pid, stopWatch, doKill)
+	} else if plan.delay >= 0 {
+		killTimer = time.AfterFunc(plan.delay, doKill)
 	}
 	guard := time.AfterFunc(childDeadline, func() {
 		mu.Lock()
@@ -356,8 +539,70 @@ func runChild(dataDir string, r runT, kill time.Duration, killRec int) childResu
 		res.Exit = "exit status 0"
 		res.Killed = false // it had finished by itself when the signal was sent
 	}
+	for k := range diskRecords(dataDir) {
+		if !before[k] {
+			res.NewRecords = append(res.NewRecords, k)
+		}
+	}
+	sort.Strings(res.NewRecords)
 	res.Output = out.String()
 	return res
+}
+
+// snapshotDir / restoreDir: the complete content of a (small) data directory.
+func snapshotDir(dir string) map[string]string {
+	out := map[string]string{}
+	filepath.Walk(dir, func(p string, info os.FileInfo, err error) error {
+		if err != nil || p == dir {
+			return nil
+		}
+		rel, _ := filepath.Rel(dir, p)
+		if info.IsDir() {
+			out[rel+"/"] = ""
+			return nil
+		}
+		if info.Size() > 1<<20 {
+			return nil
+		}
+		data, err := os.ReadFile(p)
+		if err == nil {
+			out[rel] = hex.EncodeToString(data)
+		}
+		return nil
+	})
+	return out
+}
+
+func restoreDir(dir string, snap map[string]string) error {
+	if err := os.MkdirAll(dir, 0755); err != nil {
+		return err
+	}
+	for _, rel := range names(func() map[string]bool {
+		m := map[string]bool{}
+		for k := range snap {
+			m[k] = true
+		}
+		return m
+	}()) {
+		p := filepath.Join(dir, rel)
+		if strings.HasSuffix(rel, "/") {
+			if err := os.MkdirAll(p, 0700); err != nil {
+				return err
+			}
+			continue
+		}
+		if err := os.MkdirAll(filepath.Dir(p), 0700); err != nil {
+			return err
+		}
+		data, err := hex.DecodeString(snap[rel])
+		if err != nil {
+			return err
+		}
+		if err := os.WriteFile(p, data, 0600); err != nil {
+			return err
+		}
+	}
+	return nil
 }
 
 // ---------------------------------------------------------------- calibration
@@ -379,12 +624,12 @@ func calibrate() {
 		}
 		defer os.RemoveAll(base)
 		all := runT{SSH: "ssh-simulator", FTP: true, SMTP: true, LDAP: true, Agent: true, Kill: -1}
-		a := runChild(filepath.Join(base, "data"), all, -1, 0)
+		a := runChild(filepath.Join(base, "data"), all, noKill)
 		if a.Identity == nil || !a.SawStarted {
 			calErr = fmt.Sprintf("calibration child did not come up: %s %s %s\n%s", a.HarnessErr, a.Fatal, a.Exit, a.Output)
 			return
 		}
-		b := runChild(filepath.Join(base, "data"), all, -1, 0)
+		b := runChild(filepath.Join(base, "data"), all, noKill)
 		if b.Identity == nil || !b.SawStarted {
 			calErr = fmt.Sprintf("second calibration child did not come up: %s %s %s\n%s", b.HarnessErr, b.Fatal, b.Exit, b.Output)
 			return
@@ -443,7 +688,27 @@ type verdict struct {
 	Flaky     []string
 	Notes     []string
 	Labels    []string
+	// per killed run: what the kill left (state-aimed kills)
+	KillLeft map[int]killLeft
 	Used      histCase // the case with the delays that were used
+}
+
+type killLeft struct {
+	NewRecords []string
+	Siblings   []string // sibling files present after the kill
+	Token      bool     // token file present after the kill
+	Snapshot   map[string]string
+}
+
+func siblingsOnDisk(dataDir string) []string {
+	var out []string
+	es, _ := os.ReadDir(dataDir)
+	for _, e := range es {
+		if e.Name() != "token" && e.Name() != "badger.db" {
+			out = append(out, e.Name())
+		}
+	}
+	return out
 }
 
 func wellFormed(item, v string) error {
@@ -505,7 +770,13 @@ func checkHistory(c histCase) (v verdict) {
 	}
 	defer os.RemoveAll(base)
 	dataDir := filepath.Join(base, "data")
-	if c.DirExists || c.TokenFile == "content" {
+	v.KillLeft = map[int]killLeft{}
+	if c.Snapshot != nil {
+		if err := restoreDir(dataDir, c.Snapshot); err != nil {
+			v.Infra = err.Error()
+			return
+		}
+	} else if c.DirExists || c.TokenFile == "content" || len(c.Siblings) > 0 {
 		if err := os.Mkdir(dataDir, 0755); err != nil {
 			v.Infra = err.Error()
 			return
@@ -517,11 +788,26 @@ func checkHistory(c histCase) (v verdict) {
 			return
 		}
 	}
+	for _, sb := range c.Siblings {
+		if sb.Name == "" || sb.Name != filepath.Base(sb.Name) {
+			v.Infra = fmt.Sprintf("bad sibling name %q", sb.Name)
+			return
+		}
+		if err := os.WriteFile(filepath.Join(dataDir, sb.Name), []byte(sb.Content), 0600); err != nil {
+			v.Infra = err.Error()
+			return
+		}
+	}
 	known := seenMap{}
 	established := map[string]bool{} // RSA items some earlier completed run has shown
 	tainted := c.crashState()
 	why := ""
-	if tainted {
+	switch {
+	case c.Snapshot != nil:
+		why = "data directory left by a killed start (" + c.Origin + ")"
+	case len(c.Siblings) > 0:
+		why = fmt.Sprintf("token file left %s (%q) with temporary file(s) %s next to it", c.tokenLabel(), c.Token, vlib.JSON(c.Siblings))
+	case tainted:
 		why = fmt.Sprintf("token file left %s (%q)", c.tokenLabel(), c.Token)
 	}
 	for i, r := range c.Runs {
@@ -534,8 +820,11 @@ func checkHistory(c histCase) (v verdict) {
 		if r.killed() {
 			var res childResult
 			how := ""
-			if r.KillRec > 0 {
-				res = runChild(dataDir, r, -1, r.KillRec)
+			if r.KillSibling {
+				res = runChild(dataDir, r, killPlan{delay: -1, sibling: true})
+				how = "when a new file appeared next to the token file"
+			} else if r.KillRec > 0 {
+				res = runChild(dataDir, r, killPlan{delay: -1, rec: r.KillRec})
 				how = fmt.Sprintf("when %d more identity records were on disk", r.KillRec)
 			} else {
 				delay := killDelay(r.Kill, newRSA)
@@ -543,7 +832,7 @@ func checkHistory(c histCase) (v verdict) {
 					delay = time.Duration(r.DelayMs * float64(time.Millisecond))
 				}
 				v.Used.Runs[i].DelayMs = float64(delay) / float64(time.Millisecond)
-				res = runChild(dataDir, r, delay, 0)
+				res = runChild(dataDir, r, killPlan{delay: delay})
 				how = fmt.Sprintf("%.0f ms after exec", v.Used.Runs[i].DelayMs)
 			}
 			if res.HarnessErr != "" {
@@ -559,8 +848,16 @@ func checkHistory(c histCase) (v verdict) {
 					phase = "during-start-up"
 				}
 				v.Labels = append(v.Labels, "kill:"+phase, "disk-after-kill:"+diskLabel(dataDir))
+				left := fmt.Sprintf("left %s", diskLabel(dataDir))
+				if r.KillRec > 0 || r.KillSibling {
+					kl := killLeft{NewRecords: res.NewRecords, Siblings: siblingsOnDisk(dataDir), Snapshot: snapshotDir(dataDir)}
+					_, terr := os.Stat(filepath.Join(dataDir, "token"))
+					kl.Token = terr == nil
+					v.KillLeft[i] = kl
+					left = fmt.Sprintf("left new records %v, token file present=%v, other files %v", kl.NewRecords, kl.Token, kl.Siblings)
+				}
 				if why == "" {
-					why = fmt.Sprintf("run %d SIGKILLed %s (%s, left %s)", i, how, phase, diskLabel(dataDir))
+					why = fmt.Sprintf("run %d SIGKILLed %s (%s, %s)", i, how, phase, left)
 				}
 				continue
 			}
@@ -571,7 +868,7 @@ func checkHistory(c histCase) (v verdict) {
 				return
 			}
 		} else {
-			res := runChild(dataDir, r, -1, 0)
+			res := runChild(dataDir, r, noKill)
 			if msg, infra := judge(&v, c, i, r, res, dataDir, tainted, why, known); msg != "" || infra != "" {
 				v.Violation, v.Infra = msg, infra
 				return
@@ -624,7 +921,7 @@ func judge(v *verdict, c histCase, i int, r runT, res childResult, dataDir strin
 	problem, harness := attempt(res)
 	if problem != "" {
 		first := problem
-		res = runChild(dataDir, r, -1, 0)
+		res = runChild(dataDir, r, noKill)
 		problem, harness = attempt(res)
 		if problem == "" {
 			v.Flaky = append(v.Flaky, fmt.Sprintf("%s: %s - not reproduced by an immediate further restart", ctx, trunc(first, 300)))
@@ -701,6 +998,8 @@ func genRun(rt *rapid.T, i int, last bool) runT {
 			r.Kill = rapid.IntRange(0, killSteps).Draw(rt, fmt.Sprintf("kill%d", i))
 		case p < 5:
 			r.KillRec = rapid.IntRange(1, 7).Draw(rt, fmt.Sprintf("killrec%d", i))
+		case p == 5 && i == 0:
+			r.KillSibling = true
 		}
 	}
 	return r
@@ -766,7 +1065,7 @@ func account(r *vlib.Run, label string, c histCase, v verdict) {
 	}
 }
 
-const ruleText = "every run of a history is a separate OS process running the real server on one data directory; histories of 2..5 runs with drawn service sets {ssh-simulator|ssh-auth, ftp, smtp, ldap, agent listener}, initial token file absent / empty / proper prefix / complete, runs SIGKILLed at a delay on a 41-step grid from process boot to 1.2x the measured start-up time or as soon as 1..7 identity records reached the store; oracle: one well-formed token on all events, equal token / host key / certificates / agent key between completed runs that enable the item, a start after a crash state comes up well-formed; non-trivial = >=1 completed restart after a crash state (empty/prefix token file or a killed start) or a restart with a changed service set; distinct by whole history"
+const ruleText = "every run of a history is a separate OS process running the real server on one data directory; histories of 2..5 runs with drawn service sets {ssh-simulator|ssh-auth, ftp, smtp, ldap, agent listener}, initial token file absent / empty / proper prefix / complete, runs SIGKILLed at a delay on a 41-step grid from process boot to 1.2x the measured start-up time or after a chosen single store write (child frozen and inspected after every value-log change) or the moment a temporary file appears next to the token file; token-file crash states include planted temporary files under the implementation's own (discovered) temporary name; oracle: one well-formed token on all events, equal token / host key / certificates / agent key between completed runs that enable the item, a start after a crash state comes up well-formed; non-trivial = >=1 completed restart after a crash state (empty/prefix token file or a killed start) or a restart with a changed service set; distinct by whole history"
 
 // ---------------------------------------------------------------- tests
 
@@ -948,10 +1247,37 @@ func TestKillSweep(t *testing.T) {
 	}
 }
 
-// TestKillStates: a first start with all services is killed as soon as n = 1..7 identity
-// records have reached the store (in particular between a service's key and its
-// certificate), then restarted twice. The order in which services are constructed is the
-// server's (map order), so repetitions see different record sets for the same n.
+type subsetT struct {
+	name  string
+	run   runT
+	total int // identity records a first start with this subset writes
+}
+
+func mkSubset(name string, r runT) subsetT {
+	r.Kill = -1
+	t := 0
+	if r.SSH != "" {
+		t++
+	}
+	for _, b := range []bool{r.FTP, r.SMTP, r.LDAP} {
+		if b {
+			t += 2
+		}
+	}
+	if r.Agent {
+		t++
+	}
+	return subsetT{name, r, t}
+}
+
+// TestKillStates: a first start is killed after each single write of an identity record to
+// the store: for every service subset below and every n from 1 to the number of records a
+// first start of that subset writes, the child is frozen whenever the value log changed,
+// its on-disk records are counted while frozen, and it is killed when n are there (e.g. a
+// key without its certificate). What the kill really left is read back from disk; a target
+// n that was overshot is retried on a fresh directory. Then two further starts must come up
+// with one consistent identity. The order in which services are constructed is the server's
+// (map order), so repetitions see different record sets for the same n.
 func TestKillStates(t *testing.T) {
 	r := vlib.Open(prop)
 	r.Rule(ruleText)
@@ -969,35 +1295,220 @@ func TestKillStates(t *testing.T) {
 	if vlib.Replaying() {
 		return
 	}
+	subsets := []subsetT{
+		mkSubset("all", runT{SSH: "ssh-simulator", FTP: true, SMTP: true, LDAP: true, Agent: true}),
+		mkSubset("ldap", runT{LDAP: true}),
+		mkSubset("ftp", runT{FTP: true}),
+		mkSubset("smtp", runT{SMTP: true}),
+	}
+	reps := 1
+	if r.Thorough() {
+		subsets = append(subsets,
+			mkSubset("ssh-auth+ldap+agent", runT{SSH: "ssh-auth", LDAP: true, Agent: true}),
+			mkSubset("ftp+smtp", runT{FTP: true, SMTP: true}),
+			mkSubset("ftp+ldap", runT{FTP: true, LDAP: true}),
+			mkSubset("smtp+ldap", runT{SMTP: true, LDAP: true}),
+			mkSubset("ssh-simulator+ftp", runT{SSH: "ssh-simulator", FTP: true}),
+		)
+		reps = 3
+	}
+	maxAttempts := r.Pick(8, 12)
 	shard, shards := r.Shard()
 	failed := 0
 	idx := 0
-	for rep := 0; rep < r.Pick(1, 6); rep++ {
-		for n := 1; n <= 7; n++ {
-			idx++
-			if idx%shards != shard {
-				continue
-			}
-			sshType := "ssh-simulator"
-			if idx%2 == 1 {
-				sshType = "ssh-auth"
-			}
-			all := runT{SSH: sshType, FTP: true, SMTP: true, LDAP: true, Agent: true, Kill: -1}
-			killed := all
-			killed.KillRec = n
-			c := histCase{TokenFile: "absent", Runs: []runT{killed, all, all}}
-			v := checkHistory(c)
-			if v.Infra != "" {
-				t.Fatalf("infra: %s", v.Infra)
-			}
-			account(r, "kill-at-records", c, v)
-			if v.Violation != "" {
-				r.Violation(t, "TestKillStates", v.Used, v.Violation)
-				if failed++; failed >= maxReports {
-					t.Logf("stopping after %d violations", failed)
-					return
+	for rep := 0; rep < reps; rep++ {
+		for _, sub := range subsets {
+			for n := 1; n <= sub.total; n++ {
+				idx++
+				if idx%shards != shard {
+					continue
+				}
+				hit := false
+				for attempt := 0; attempt < maxAttempts && !hit; attempt++ {
+					killed := sub.run
+					killed.KillRec = n
+					c := histCase{TokenFile: "absent", Runs: []runT{killed, sub.run, sub.run}}
+					v := checkHistory(c)
+					if v.Infra != "" {
+						t.Fatalf("infra: %s", v.Infra)
+					}
+					kl, wasKilled := v.KillLeft[0]
+					if wasKilled {
+						r.Label(fmt.Sprintf("kill-state-hit:%s:n=%d", sub.name, len(kl.NewRecords)), 1)
+						hit = len(kl.NewRecords) == n
+					} else {
+						r.Label(fmt.Sprintf("kill-state-not-reached:%s:n=%d", sub.name, n), 1)
+					}
+					account(r, "kill-at-records", c, v)
+					if v.Violation != "" {
+						rc := v.Used
+						if wasKilled {
+							rc = histCase{TokenFile: "absent", Snapshot: kl.Snapshot, Runs: c.Runs[1:],
+								Origin: fmt.Sprintf("first start with services %s SIGKILLed when the store held the new records %v", sub.run.set(), kl.NewRecords)}
+						}
+						r.Violation(t, "TestKillStates", rc, v.Violation)
+						if failed++; failed >= maxReports {
+							t.Logf("stopping after %d violations", failed)
+							return
+						}
+						break
+					}
+				}
+				if !hit {
+					r.Label(fmt.Sprintf("kill-state-missed:%s:n=%d", sub.name, n), 1)
+					r.Note("kill after store write %d of subset %s was not hit exactly in %d attempts", n, sub.name, maxAttempts)
 				}
 			}
 		}
 	}
+}
+
+// TestTokenSiblingStates: crash states next to the token file. A writer that goes through a
+// temporary file can be killed between creating it and the rename. (1) The temporary name
+// the implementation uses is discovered by watching the data directory during a first
+// start. (2) Starting children are killed the moment such a file appears; the directory is
+// kept and restarted twice. (3) The states are also planted: the discovered name(s), empty /
+// partial / complete, next to an absent / empty / partial token file.
+func TestTokenSiblingStates(t *testing.T) {
+	r := vlib.Open(prop)
+	r.Rule(ruleText)
+	var c histCase
+	if vlib.ReplayCase("TestTokenSiblingStates", &c) {
+		v := checkHistory(c)
+		if v.Infra != "" {
+			t.Fatalf("infra: %s", v.Infra)
+		}
+		if v.Violation != "" {
+			r.Violation(t, "TestTokenSiblingStates", v.Used, v.Violation)
+		}
+		return
+	}
+	if vlib.Replaying() {
+		return
+	}
+	shard, shards := r.Shard()
+	failed := 0
+	report := func(rc histCase, msg string) bool {
+		r.Violation(t, "TestTokenSiblingStates", rc, msg)
+		failed++
+		return failed >= maxReports
+	}
+	plain := runT{Agent: true, Kill: -1}
+
+	// (1) discovery: an undisturbed first start, watched
+	var discovered []string
+	{
+		base, err := os.MkdirTemp("", "c18-disc-")
+		if err != nil {
+			t.Fatalf("infra: %v", err)
+		}
+		res := runChild(filepath.Join(base, "data"), plain, killPlan{delay: -1, watch: true})
+		os.RemoveAll(base)
+		if res.Identity == nil {
+			t.Fatalf("infra: discovery start did not come up: %s", describe(res))
+		}
+		seen := map[string]bool{}
+		for _, n := range res.Siblings {
+			if !seen[n] {
+				seen[n] = true
+				discovered = append(discovered, n)
+			}
+		}
+	}
+	if len(discovered) == 0 {
+		r.Label("sibling-discovery:none", 1)
+		r.Note("no file other than token appeared in the data directory during a first start; planting the conventional name token.tmp instead")
+		discovered = []string{"token.tmp"}
+	} else {
+		r.Label("sibling-discovery:found", 1)
+		if shard == 0 {
+			r.Note("temporary file(s) seen next to the token during a first start: %v", discovered)
+		}
+	}
+	if len(discovered) > 2 {
+		discovered = discovered[:2]
+	}
+
+	// (2) real kills at the moment the temporary file appears
+	attempts := r.Pick(4, 25)
+	for a := 0; a < attempts; a++ {
+		killed := plain
+		killed.KillSibling = true
+		c := histCase{TokenFile: "absent", DirExists: true, Runs: []runT{killed, plain, plain}}
+		if a%2 == 1 { // a start that replaces a malformed token file writes one too
+			c.TokenFile, c.Token = "content", sampleToken[:a%19+1]
+		}
+		v := checkHistory(c)
+		if v.Infra != "" {
+			t.Fatalf("infra: %s", v.Infra)
+		}
+		kl, wasKilled := v.KillLeft[0]
+		switch {
+		case !wasKilled:
+			r.Label("sibling-kill:no-file-appeared", 1)
+		case len(kl.Siblings) > 0:
+			r.Label("sibling-kill:left-temporary-file", 1)
+		default:
+			r.Label("sibling-kill:rename-already-done", 1)
+		}
+		account(r, "kill-at-sibling", c, v)
+		if v.Violation != "" {
+			rc := v.Used
+			if wasKilled {
+				rc = histCase{TokenFile: "absent", Snapshot: kl.Snapshot, Runs: c.Runs[1:],
+					Origin: fmt.Sprintf("start SIGKILLed when a new file appeared next to the token file; left files %v, token present=%v", kl.Siblings, kl.Token)}
+			}
+			if report(rc, v.Violation) {
+				return
+			}
+			break
+		}
+	}
+
+	// (3) planted states
+	idx := 0
+	for _, name := range discovered {
+		for _, content := range []string{"", sampleToken[:7], sampleToken} {
+			for _, tok := range []string{"absent", "", sampleToken[:9]} {
+				idx++
+				if idx%shards != shard {
+					continue
+				}
+				c := histCase{TokenFile: "content", Token: tok, DirExists: true, Siblings: []sibT{{name, content}}}
+				if tok == "absent" {
+					c.TokenFile, c.Token = "absent", ""
+				}
+				a := cycle[idx%len(cycle)]
+				a.Kill = -1
+				c.Runs = []runT{a, a}
+				if r.Thorough() {
+					c.Runs = []runT{a, a, a}
+				}
+				v := checkHistory(c)
+				if v.Infra != "" {
+					t.Fatalf("infra: %s", v.Infra)
+				}
+				lbl := "empty"
+				if len(content) == 20 {
+					lbl = "complete"
+				} else if content != "" {
+					lbl = "partial"
+				}
+				r.Bulk("token-sibling-state/temp-"+lbl+"+token-"+c.tokenLabel(), 1, 1)
+				r.Sample("token-sibling-state/temp-"+lbl, v.Used)
+				for _, f := range v.Flaky {
+					r.Flaky(f)
+				}
+				for _, l := range v.Labels {
+					r.Label(l, 1)
+				}
+				if v.Violation != "" {
+					if report(v.Used, v.Violation) {
+						return
+					}
+				}
+			}
+		}
+	}
+	r.Exhaustive("planted temporary-file states next to the token file: the implementation's own temporary name (discovered by watching a first start) x {empty, 7-byte prefix, complete token} x token file {absent, empty, 9-byte prefix}")
 }
